@@ -89,6 +89,16 @@ def handle (st : DState) (op : String) (args impl : List String) : Option (DStat
     let h := if implOk impl then (match ev with | some e => e :: pv.hist | none => pv.hist) else pv.hist
     let tag' := tag ++ (match r.2 with | none => ".ok" | some e => "." ++ e.name)
     (upd r.1 h, judge tag' (errOut r.2 okToks) impl rules)
+  -- a property of an OLD-format file (< 1.1.1: one compound record per value; prepared with the HDF5 C API), read through the public
+  -- API: type, count, values and uncertainty are what the records hold — judged on the answer alone, the request carries the values
+  if op == "pv_old" then
+    some (match args with
+      | [ty, vals, unc] =>
+        let n := ((parseList vals).getD []).length
+        let expect := ["ok", "[1,1,0]", ty, toString n, vals, if n == 0 then "~" else unc]
+        (st, judge s!"pv_old.{ty}.{if n == 0 then "empty" else "values"}" expect impl
+          [("old_format_values_are_read_back", impl.take 5 == expect.take 5 && (n == 0 || impl[5]? == some unc))])
+      | _ => (st, .malformed "pv_old")) else
   if op.startsWith "pv_" && op != "pv_open" && !pv.opened then some (st, .malformed (op ++ " before pv_open")) else
   match op with
   | "pv_open" => some ({ st with dp := { st.dp with pv := { opened := true } } }, cmp "pv_open" ["ok"] impl)
